@@ -89,9 +89,8 @@ def run(chk):
     for rd in range(rounds):
         # ---------------------------------------------------------------- k-means
         init, X = kt.gen_clusters(r, K=r.choice([2, 3]), D=2, N=12)
-        cap = r.choice([0, 1, 3])
-        ctx = {"X": hexlist(X), "init": hexlist(init), "max_iter": cap}
-        for dask_in in (False, True):
+        for cap, dask_in in ((0, False), (0, True), (1, False), (3, True), (r.choice([1, 3]), r.choice([False, True]))):
+            ctx = {"X": hexlist(X), "init": hexlist(init), "max_iter": cap}
             data = da.from_array(X, chunks=((5, 7), (2,))) if dask_in else X
             tag = "dask" if dask_in else "numpy"
             km = guarded("KMeansMachine.fit[%s,max_iter=%d]" % (tag, cap), {"X": X, "init": init},
@@ -127,6 +126,16 @@ def run(chk):
                 m = GMMMachine(n_gaussians=2, trainer="map", ubm=prior, max_fitting_steps=2, update_variances=bool(rd % 2), update_weights=True)
                 return m.fit(data)
             mm = guarded("GMMMachine.fit[map,%s]" % tag, {"X": Xg, "prior": prior}, fit_map, lambda m: [m.means, m.variances, m.weights], ctx=gctx)
+            # fixed-ratio adaptation with a caller-owned per-component ratio array and a component that receives no data
+            alpha_arr = np.array([0.3, 0.6])
+            prior_far = make_gmm(w, np.vstack([mu[0], mu[1] + 1e4 * s]), var)
+
+            def fit_map_alpha():
+                m = GMMMachine(n_gaussians=2, trainer="map", ubm=prior_far, max_fitting_steps=2, map_relevance_factor=None, map_alpha=alpha_arr,
+                               update_variances=bool(rd % 2), update_weights=True)
+                return m.fit(data)
+            guarded("GMMMachine.fit[map,per-component ratio array,%s]" % tag, {"X": Xg, "prior": prior_far, "map_alpha": alpha_arr}, fit_map_alpha,
+                    lambda m: [m.means, m.variances, m.weights], ctx=gctx)
             # the adapted machine does not follow later changes of its prior's arrays
             for steps in (0, 2):
                 ma = GMMMachine(n_gaussians=2, trainer="map", ubm=prior, max_fitting_steps=steps)
